@@ -113,9 +113,15 @@ EXPORT errno_t _strnset_s_chk(char *restrict dest, rsize_t dmax, int value, rsiz
         dest++;
     }
 #ifdef SAFECLIB_STR_NULL_SLACK
-    /* null slack to clear any data */
-    if (!*dest)
-        memset(dest, 0, dmax - (dest - orig_dest));
+    /* null slack to clear any data: behind the terminator, which lies
+       further on when n ended the loop */
+    dmax -= dest - orig_dest;
+    while (dmax && *dest) {
+        dmax--;
+        dest++;
+    }
+    if (dmax)
+        memset(dest, 0, dmax);
 #endif
 
     return (EOK);
